@@ -135,7 +135,11 @@ fn point<R>(class: &str, f: impl FnOnce() -> (R, String)) -> R {
         let now = Instant::now();
         if now >= deadline {
             c.diverged = true;
-            let what = format!("diverged waiting-for={} at={}", c.sched[c.pos].clone(), c.pos);
+            let what = format!(
+                "diverged waiting-for={} at={}",
+                c.sched[c.pos].clone(),
+                c.pos
+            );
             log(&mut c, class, &what);
             TURN.notify_all();
             break;
@@ -181,7 +185,11 @@ pub fn worker_turn(idx: usize) -> WorkerTurn {
         let now = Instant::now();
         if now >= deadline {
             c.diverged = true;
-            let what = format!("diverged waiting-for={} at={}", c.sched[c.pos].clone(), c.pos);
+            let what = format!(
+                "diverged waiting-for={} at={}",
+                c.sched[c.pos].clone(),
+                c.pos
+            );
             log(&mut c, &class, &what);
             TURN.notify_all();
             break;
